@@ -375,7 +375,12 @@ class RepoPolicy(Policy):
                 others = [n for n in walk_own(frame.func.node) if isinstance(n, ast.Name) and n.id == name and isinstance(n.ctx, ast.Store)]
 
                 def leaves(e):
-                    return leaves(e.body) + leaves(e.orelse) if isinstance(e, ast.IfExp) else [e]
+                    if isinstance(e, ast.IfExp):
+                        tv_ = self.static_truth(e.test, frame)
+                        if tv_ is not None:
+                            return leaves(e.body if tv_ else e.orelse)
+                        return leaves(e.body) + leaves(e.orelse)
+                    return [e]
                 arms = [x for b in binds for x in leaves(b)]
                 if arms and len(others) == len(all_binds) and all(isinstance(a, ast.Attribute) for a in arms) and name not in frame.func.all_param_names:
                     ts = [self.call_target(ast.copy_location(ast.Call(func=a, args=call.args, keywords=call.keywords), call), frame) for a in arms]
